@@ -633,6 +633,9 @@ func (w *WFlag) build() *ldmodel.FeatureFlag {
 	switch w.Form {
 	case "pre":
 		ldmodel.PreprocessFlag(&f)
+	case "builder":
+		g := buildWithBuilders(w)
+		return &g
 	case "json":
 		data, err := ldmodel.NewJSONDataModelSerialization().MarshalFeatureFlag(f)
 		if err != nil {
@@ -672,6 +675,9 @@ func (w *WSegment) build() *ldmodel.Segment {
 	switch w.Form {
 	case "pre":
 		ldmodel.PreprocessSegment(&s)
+	case "builder":
+		g := buildSegmentWithBuilders(w)
+		return &g
 	case "json":
 		data, err := ldmodel.NewJSONDataModelSerialization().MarshalSegment(s)
 		if err != nil {
